@@ -514,6 +514,51 @@ theorem toplevel_field (env : Env) (hp : RulesProgress env.cfg = true) (F D : Na
     rfl
   rw [hti, hi7, hcar]
 
+/-- as `toplevel_variables`, and the block on top is the same one with its location moved -/
+theorem toplevel_variables_loc (env : Env) (hp : RulesProgress env.cfg = true) (hnf : env.faultAt = none) (F D : Nat) (w : World)
+    (first : Tok) (pairs : List (Tok × Tok)) (ds : List (Dtor × DType)) (last : Dtor × DType) (b1 b0 b' : Buf)
+    (blk : Block) (rest : List Block) (hstack : w.stack = blk :: rest) (hk : blk.hdr.kind ≠ .cls) (hmu : w.muted = false)
+    (htok : tokenEofOk env.cfg w.buf = .ok (some first, b1))
+    (hty : first.type = "NAME") (htv : identVal first.value = true)
+    (hall : ∀ p ∈ pairs, p.1.type = "DBL_COLON" ∧ p.2.type = "NAME" ∧ plainVal p.2.value = true)
+    (hy0 : Yields env.cfg b1 (pairs.flatMap (fun p => [p.1, p.2])) b0)
+    (hops : opsHeadOk (firstDtor ds last).ops = true) (hopsv : ∀ o ∈ (firstDtor ds last).ops, o.value ≠ "auto")
+    (hds : ∀ p ∈ ds, p.1.OK (.type (.mk (.name first.value none :: pairs.map (fun p => .name p.2.value none)) none false) false false) p.2 ∧
+      p.1.sep.type = "," ∧ p.1.ops.length + 1 ≤ F)
+    (hlast : last.1.OK (.type (.mk (.name first.value none :: pairs.map (fun p => .name p.2.value none)) none false) false false) last.2)
+    (hsep : last.1.sep.type = ";") (hlen : last.1.ops.length + 1 ≤ F)
+    (hy : Yields env.cfg b0 (ds.flatMap (fun p => p.1.toks) ++ last.1.toks) b')
+    (hF : pairs.length + 2 ≤ F) (hF2 : ds.length + 1 ≤ F) :
+    ∃ (d : Option String) (bD : Buf) (wF : World) (evs : List Event) (doxs : List (Option String)) (blkF : Block),
+      getDoxygen env.cfg env.mcRe w.buf = .ok (d, bD) ∧
+      interp env (mainBody F (core F (D + 1 + 1)) none) w = (wF, .ok (.inl none)) ∧
+      SigEq b' wF.buf ∧ wF.stack = blkF :: rest ∧ blkF.id = blk.id ∧ blkF.hdr = blk.hdr ∧
+      wF.events = w.events ++ evs ∧ doxs.length = ds.length + 1 ∧
+      evs.map (·.kind) = varKinds (ds ++ [last]) doxs ∧ (∀ e ∈ evs, e.stateId = blk.id ∧ e.parentId = rest.head?.map (·.id)) ∧
+      (∀ dd, d = some dd → doxs.head? = some (some dd)) ∧
+      wF.delivered = w.delivered + (ds.length + 1) ∧ wF.anon = w.anon ∧ wF.muted = false ∧ wF.nextId = w.nextId ∧
+      ∃ l, blkF = { blk with loc := l } := by
+  obtain ⟨d, bD, wA, ct, hd, hsA, hbA, htyc, hv, hi⟩ := mainBody_item env hp F (core F (D + 1 + 1)) w first b1 htok
+  obtain ⟨wF, evs, doxs, blkF, hiF, hsig, hstF, hidF, hhdrF, hevF, hdl, hkinds, hids, hdox, hdlF, hanF, hmuF, hnxF, hlF⟩ :=
+    parseDeclarations_variables_loc env hnf F D ct d pairs ds last { wA with mainTok := some ct } b0 b' blk rest
+      (by show wA.stack = _; rw [hsA.stack]; exact hstack) hk (by show wA.muted = _; rw [hsA.muted]; exact hmu)
+      (htyc.trans hty) (by rw [hv]; exact htv) hall (by show Yields env.cfg wA.buf _ _; rw [hbA]; exact hy0) hops hopsv
+      (by rw [hv]; exact hds) (by rw [hv]; exact hlast) hsep hlen hy hF hF2
+  refine ⟨d, bD, wF, evs, doxs, blkF, hd, ?_, hsig, hstF, hidF, hhdrF, by rw [hevF]; show wA.events ++ _ = _; rw [hsA.events], hdl,
+    hkinds, hids, hdox, by rw [hdlF]; show wA.delivered + _ = _; rw [hsA.delivered], by rw [hanF]; exact hsA.anon, hmuF,
+    by rw [hnxF]; exact hsA.nextId, hlF⟩
+  rw [hi]
+  have hti : topItem F (core F (D + 1 + 1)) ct d = parseDeclarations F (core F (D + 1 + 1)) ct d := by
+    unfold topItem
+    have : Gen.dispatchTable.lookup "NAME" = none := by rw [dispatch_table_eq]; decide
+    rw [htyc, hty, this]
+  have hcar : carry ct d = none := by
+    unfold carry
+    have : Gen.keepDoxygen.contains "NAME" = false := by rw [keep_doxygen_eq]; decide
+    rw [htyc, hty, this]
+    rfl
+  rw [hti, hiF, hcar]
+
 /-- **`T d1 , d2 , … , dn ;` — a declaration statement with any number of declarators through
     `parse()`'s loop**: outside a class, with an active visitor that never raises, the iteration
     delivers exactly one `on_variable` per declarator, in order, each with its own name and the
@@ -542,26 +587,9 @@ theorem toplevel_variables (env : Env) (hp : RulesProgress env.cfg = true) (hnf 
       evs.map (·.kind) = varKinds (ds ++ [last]) doxs ∧ (∀ e ∈ evs, e.stateId = blk.id ∧ e.parentId = rest.head?.map (·.id)) ∧
       (∀ dd, d = some dd → doxs.head? = some (some dd)) ∧
       wF.delivered = w.delivered + (ds.length + 1) ∧ wF.anon = w.anon ∧ wF.muted = false ∧ wF.nextId = w.nextId := by
-  obtain ⟨d, bD, wA, ct, hd, hsA, hbA, htyc, hv, hi⟩ := mainBody_item env hp F (core F (D + 1 + 1)) w first b1 htok
-  obtain ⟨wF, evs, doxs, blkF, hiF, hsig, hstF, hidF, hhdrF, hevF, hdl, hkinds, hids, hdox, hdlF, hanF, hmuF, hnxF⟩ :=
-    parseDeclarations_variables env hnf F D ct d pairs ds last { wA with mainTok := some ct } b0 b' blk rest
-      (by show wA.stack = _; rw [hsA.stack]; exact hstack) hk (by show wA.muted = _; rw [hsA.muted]; exact hmu)
-      (htyc.trans hty) (by rw [hv]; exact htv) hall (by show Yields env.cfg wA.buf _ _; rw [hbA]; exact hy0) hops hopsv
-      (by rw [hv]; exact hds) (by rw [hv]; exact hlast) hsep hlen hy hF hF2
-  refine ⟨d, bD, wF, evs, doxs, blkF, hd, ?_, hsig, hstF, hidF, hhdrF, by rw [hevF]; show wA.events ++ _ = _; rw [hsA.events], hdl,
-    hkinds, hids, hdox, by rw [hdlF]; show wA.delivered + _ = _; rw [hsA.delivered], by rw [hanF]; exact hsA.anon, hmuF,
-    by rw [hnxF]; exact hsA.nextId⟩
-  rw [hi]
-  have hti : topItem F (core F (D + 1 + 1)) ct d = parseDeclarations F (core F (D + 1 + 1)) ct d := by
-    unfold topItem
-    have : Gen.dispatchTable.lookup "NAME" = none := by rw [dispatch_table_eq]; decide
-    rw [htyc, hty, this]
-  have hcar : carry ct d = none := by
-    unfold carry
-    have : Gen.keepDoxygen.contains "NAME" = false := by rw [keep_doxygen_eq]; decide
-    rw [htyc, hty, this]
-    rfl
-  rw [hti, hiF, hcar]
+  obtain ⟨d, bD, wF, evs, doxs, blkF, h0, h1, h2, h3, h4, h5, h6, h7, h8, h9, h10, h11, h12, h13, h14, _⟩ :=
+    toplevel_variables_loc env hp hnf F D w first pairs ds last b1 b0 b' blk rest hstack hk hmu htok hty htv hall hy0 hops hopsv hds hlast hsep hlen hy hF hF2
+  exact ⟨d, bD, wF, evs, doxs, blkF, h0, h1, h2, h3, h4, h5, h6, h7, h8, h9, h10, h11, h12, h13, h14⟩
 
 /-- **`T ptr-ops x = value ;` through `parse()`'s loop**: as `toplevel_variable_init`, and the one
     `on_variable` carries as value EXACTLY the tokens written between the `=` and the `;`, for
@@ -1037,5 +1065,56 @@ theorem toplevel_method (env : Env) (hp : RulesProgress env.cfg = true) (F D : N
     rw [htyc, hty, this]
     rfl
   rw [hti, hi7, hcar]
+
+/-! ### from iterations to `parse()`: the loop is the sequence of its iterations -/
+
+/-- a chain of iterations, each handing NO doc text on: `ws` are the parser states between them -/
+inductive IterChain (env : Env) (F : Nat) (c : Core) : World → List World → World → Prop
+  | nil (w : World) : IterChain env F c w [] w
+  | cons {w w1 wE : World} {ws : List World} :
+      interp env (mainBody F c none) w = (w1, .ok (.inl none)) → IterChain env F c w1 ws wE → IterChain env F c w (w1 :: ws) wE
+
+/-- **the loop of `parse()` is the sequence of its iterations**: if from `w` the iterations lead through
+    the states `ws` to `wE` (each handing no doc text on — what every `toplevel_*` theorem concludes)
+    and the iteration at `wE` finds the end of the input, then the whole loop run from `w` ends
+    normally in the state that last iteration leaves -/
+theorem mainLoop_chain (env : Env) (F : Nat) (c : Core) : ∀ (ws : List World) (w wE wF : World) (n : Nat),
+    IterChain env F c w ws wE → interp env (mainBody F c none) wE = (wF, .ok (.inr ())) → ws.length + 1 ≤ n →
+    interp env (loopN n (none : Option String) (mainBody F c)) w = (wF, .ok ()) := by
+  intro ws
+  induction ws with
+  | nil =>
+    intro w wE wF n hc hend hn
+    cases hc
+    obtain ⟨k, rfl⟩ : ∃ k, n = k + 1 := ⟨n - 1, by omega⟩
+    rw [loopN]
+    simp only [bind, interp_bind, hend, pure, interp]
+  | cons w1 ws ih =>
+    intro w wE wF n hc hend hn
+    cases hc with
+    | cons h1 hrest =>
+      obtain ⟨k, rfl⟩ : ∃ k, n = k + 1 := ⟨n - 1, by omega⟩
+      rw [loopN]
+      simp only [bind, interp_bind, h1]
+      exact ih w1 wE wF k hrest hend (by simp at hn; omega)
+
+/-- the iteration at the end of the input: the loop ends, nothing is delivered -/
+theorem toplevel_eof (env : Env) (hp : RulesProgress env.cfg = true) (F : Nat) (c : Core) (w : World) (bE : Buf)
+    (heof : tokenEofOk env.cfg w.buf = .ok (none, bE)) :
+    ∃ (wF : World), interp env (mainBody F c none) w = (wF, .ok (.inr ())) ∧ wF.stack = w.stack ∧ wF.events = w.events ∧
+      wF.delivered = w.delivered ∧ wF.anon = w.anon ∧ wF.muted = w.muted ∧ wF.nextId = w.nextId := by
+  obtain ⟨d, bD, hd⟩ := getDoxygen_ok env.cfg hp env.mcRe w.buf none bE heof
+  have hnext := getDoxygen_next env.cfg hp env.mcRe w.buf bD d hd
+  refine ⟨{ ({ ({ w with buf := bD } : World) with buf := bE } : World) with mainTok := none }, ?_, rfl, rfl, rfl, rfl, rfl, rfl⟩
+  unfold mainBody P.tokenEofOk
+  have ht : tokenEofOk env.cfg ({ w with buf := bD } : World).buf = .ok (none, bE) := by
+    show tokenEofOk env.cfg bD = _; rw [hnext]; exact heof
+  simp only [bind, interp_bind, interp_getDoxygen, hd, interp, Bool.false_eq_true, ↓reduceIte, ht, pure]
+
+/-- `mainLoop` itself -/
+theorem mainLoop_of_chain (env : Env) (F : Nat) (c : Core) (ws : List World) (w wE wF : World)
+    (hc : IterChain env F c w ws wE) (hend : interp env (mainBody F c none) wE = (wF, .ok (.inr ()))) (hF : ws.length + 1 ≤ F) :
+    interp env (mainLoop F c) w = (wF, .ok ()) :=
+  mainLoop_chain env F c ws w wE wF F hc hend hF
 
 end Cxx
